@@ -6,13 +6,18 @@ FRAGMENT = {
  'level_text': 'seeded exploration of multiplex schedules x packet faults (tens of thousands of runs per quick check) against a reference reassembler; both '
                'XDS consumers (vbi_xds_demux and the service decoder path) run real code under ASan+UBSan; a quarter of the runs transmit a programme guide '
                '(current, future and channel class items repeated round after round, optional programme boundary) and check that programme id number and '
-               'name are announced, not only that nothing wrong is announced; sampling, not proof',
+               'name are announced, not only that nothing wrong is announced; two guide runs in five are a station identifying itself by network name and '
+               'call letters round after round, with boundaries at which the call letters alone, the name alone or both change, and the station must be '
+               'announced (NETWORK / NETWORK_ID) with the new name and call letters; sampling, not proof',
  'level_note': 'trusted: the reference reassembler (written from the statement), the simulated field-2 multiplexer, clang sanitizers; payload bytes restricted '
                'to 0x20-0x7F; class/type outside the documented tables and NUL-pad-then-more-payload packets are checked for safety and content but may be '
                'delivered or not; the announcement clause is bounded liveness with a deliberately loose bound (PROG_INFO carrying the id number / name must have '
                'been raised once the packet was received 4 times while nothing of its class changed and no fault, parity error, undetermined packet or '
                'NETWORK event occurred in that time; the second-occurrence rule needs 2, an id-number change in between 3); length, rating and the other '
-               'items are only checked for fidelity, not for being announced',
+               'items are only checked for fidelity, not for being announced; station clause: NETWORK or NETWORK_ID carrying name X and call letters Y must '
+               'have been raised once the name packet was received 3 times undisturbed after the last change of name or call letters (the documented rule '
+               'needs 2); an announcement of (X, Y) made earlier in the same run of (X, Y) is accepted, and any call letters while a call letters packet is '
+               'undetermined',
  'design_ref': 'DESIGN.md section 6 (C09)',
  'quick': {'runs': 300000, 'budget_s': 25, 'workers': 16},
  'thorough': {'runs': 4000000, 'budget_s': 600, 'workers': 16, 'det_sample': 200},
@@ -20,7 +25,7 @@ FRAGMENT = {
          '(continue codes inserted on resumption), faults attached to packets; 1 run in 4 is a programme guide: 2-10 items of the current, future and channel '
          'class repeated 5-8 rounds, optionally a programme boundary with new contents and 5-8 more rounds, sent by one carousel, one carousel per class '
          'or one source per item (counters guide_runs, guide_runs_programme_boundary, live_checks = announcement clause evaluated, '
-         'live_checks_other_class_renewed = evaluated while the other programme class changed during the confirmation, live_disturbances); non-trivial = the reference delivered >= 2 valid packets and >= 1 packet was '
+         'live_checks_other_class_renewed = evaluated while the other programme class changed during the confirmation, live_disturbances, guide_runs_station, net_live_checks / net_live_checks_with_call = station clause evaluated); non-trivial = the reference delivered >= 2 valid packets and >= 1 packet was '
          'interrupted and resumed; distinct = distinct event-log hash',
  'fault_kinds': ['fault_demux_reset', 'fault_checksum', 'fault_parity', 'fault_nostart', 'fault_midnul', 'fault_noterm', 'fault_restart', 'fault_parity_term'],
  'components': {'real': ['src/xds_demux.c', 'src/caption.c (xds_separator, xds_decoder)', 'src/vbi.c (vbi_decode, events)'],
